@@ -877,6 +877,123 @@ def nearest_for(node, fn):
     return None
 
 
+def g2d_order_destroying_key(fn):
+    """A lookup key (used in `k in D`, `D[k]`, `D.get(k)`) built from several parameters through an order- or sign-destroying
+    call (sorted / set / frozenset / min / max / abs), while the function reads those parameters individually elsewhere: two
+    requests that differ in the order of the arguments share one entry although the computed value depends on the order."""
+    findings = []
+    params = {a.arg for a in fn.args.posonlyargs + fn.args.args + fn.args.kwonlyargs} - {'self', 'cls'}
+    LOSSY = {'sorted', 'set', 'frozenset'}
+    for st in own_nodes(fn):
+        if not (isinstance(st, ast.Assign) and len(st.targets) == 1 and isinstance(st.targets[0], ast.Name)):
+            continue
+        k = st.targets[0].id
+        lossy = [c for c in ast.walk(st.value) if isinstance(c, ast.Call) and isinstance(c.func, ast.Name) and c.func.id in LOSSY]
+        for c in lossy:
+            inside = {n.id for a in c.args for n in ast.walk(a) if isinstance(n, ast.Name)} & params
+            if len(inside) < 2:
+                continue
+            # k is a lookup key
+            used_as_key = False
+            for n in own_nodes(fn):
+                if isinstance(n, ast.Compare) and isinstance(n.left, ast.Name) and n.left.id == k and any(isinstance(o, (ast.In, ast.NotIn)) for o in n.ops):
+                    used_as_key = True
+                if isinstance(n, ast.Subscript) and isinstance(n.slice, ast.Name) and n.slice.id == k:
+                    used_as_key = True
+                if isinstance(n, ast.Call) and isinstance(n.func, ast.Attribute) and n.func.attr in ('get', 'setdefault', 'pop') and n.args \
+                        and isinstance(n.args[0], ast.Name) and n.args[0].id == k:
+                    used_as_key = True
+            if not used_as_key:
+                continue
+            # the parameters are read individually outside the key expression (positionally distinct uses)
+            key_nodes = {id(x) for x in ast.walk(st.value)}
+            outside = {n.id for n in own_nodes(fn) if isinstance(n, ast.Name) and isinstance(n.ctx, ast.Load) and n.id in inside and id(n) not in key_nodes}
+            if len(outside) >= 2:
+                findings.append(('G2', st, 'the lookup key `%s` is built with %s(...) over the parameters %s, which discards their order, while the value is '
+                                           'computed from them individually: requests that are permutations of each other are served one entry'
+                                 % (k, c.func.id, ', '.join(sorted(inside)))))
+    return findings
+
+
+def g22_sum_as_zero_test(fn):
+    """`if np.sum(x) != 0:` / `if x.sum():` guarding a computation that uses x: the SUM of a sign-indefinite array is zero for
+    (2, -0.5, -1.5) too -- an all-zero test needs np.any / count_nonzero.  Only reported when the guarded block (or the code
+    skipped by an early exit) uses the array in arithmetic."""
+    findings = []
+
+    def summed(e):
+        """array expression x if e is np.sum(x) / x.sum() / sum(x)"""
+        if isinstance(e, ast.Call):
+            n = src(e.func)
+            if n in ('np.sum', 'numpy.sum', 'sum') and len(e.args) == 1 and not e.keywords:
+                return e.args[0]
+            if isinstance(e.func, ast.Attribute) and e.func.attr == 'sum' and not e.args and not e.keywords:
+                return e.func.value
+        return None
+
+    def zero_test(t):
+        if isinstance(t, ast.UnaryOp) and isinstance(t.op, ast.Not):
+            return zero_test(t.operand) or summed(t.operand)
+        if isinstance(t, ast.Compare) and len(t.ops) == 1 and isinstance(t.ops[0], (ast.Eq, ast.NotEq)):
+            for a, b in ((t.left, t.comparators[0]), (t.comparators[0], t.left)):
+                if isinstance(b, ast.Constant) and b.value in (0, 0.0) and not isinstance(b.value, bool):
+                    x = summed(a)
+                    if x is not None:
+                        return x
+        return None
+    for iff in [n for n in own_nodes(fn) if isinstance(n, ast.If)]:
+        x = zero_test(iff.test)
+        if x is None or not isinstance(x, ast.Name):
+            continue
+        # counts (len(...), comparisons, boolean masks) summed are non-negative: only arrays of values matter.  Evidence that x holds
+        # signed values: it is used as an operand of arithmetic / dot products in the guarded code
+        body = list(iff.body) + list(iff.orelse)
+        arith = False
+        for b in body:
+            for n in ast.walk(b):
+                if isinstance(n, ast.BinOp) and any(isinstance(m, ast.Name) and m.id == x.id for m in ast.walk(n)):
+                    arith = True
+                if isinstance(n, ast.Call) and isinstance(n.func, ast.Attribute) and n.func.attr in ('dot', 'matvec') \
+                        and any(isinstance(m, ast.Name) and m.id == x.id for a in n.args for m in ast.walk(a)):
+                    arith = True
+        if arith:
+            findings.append(('G22', iff, '`%s` tests the SUM of `%s` against zero and the guarded code computes with `%s`: values of both signs that cancel '
+                                         '(1 and -1) pass for "all zero" and their contribution is skipped; an all-zero test is np.any(%s)'
+                             % (src(iff.test)[:60], x.id, x.id, x.id)))
+    return findings
+
+
+def g23_setdefault_as_store(fn):
+    """`D.setdefault(k, V)` as a statement with a computed V (not an empty container / literal): when k is already present V is
+    silently dropped -- an update (`D[k] = D.get(k, E) | V`) written as an initialisation."""
+    findings = []
+    params = {a.arg for a in fn.args.posonlyargs + fn.args.args + fn.args.kwonlyargs}
+    if fn.args.kwarg:
+        kw = fn.args.kwarg.arg
+    else:
+        kw = None
+    for st in own_nodes(fn):
+        if not (isinstance(st, ast.Expr) and isinstance(st.value, ast.Call) and isinstance(st.value.func, ast.Attribute) and st.value.func.attr == 'setdefault'):
+            continue
+        c = st.value
+        if len(c.args) != 2:
+            continue
+        recv = c.func.value
+        if isinstance(recv, ast.Name) and recv.id == kw:
+            continue            # defaults for **kwargs: the documented use
+        v = c.args[1]
+        if isinstance(v, ast.Constant) or (isinstance(v, (ast.List, ast.Dict, ast.Set, ast.Tuple)) and not getattr(v, 'elts', getattr(v, 'keys', []))) \
+                or (isinstance(v, ast.Call) and isinstance(v.func, ast.Name) and v.func.id in ('list', 'dict', 'set', 'tuple') and not v.args):
+            continue
+        # V is a value computed in this function (a local that is not a parameter default)
+        names = {n.id for n in ast.walk(v) if isinstance(n, ast.Name)}
+        if not names:
+            continue
+        findings.append(('G23', st, '`%s` stores `%s` only if the key is absent and its result is discarded: when `%s` already has the key the newly '
+                                    'computed value is dropped without a trace (lost update)' % (src(c)[:70], src(v)[:40], src(recv)[:30])))
+    return findings
+
+
 def g8_meshgrid_indexing(fn):
     """np.meshgrid defaults to indexing='xy', which swaps the first two axes.  pyiga enumerates tensor-product indices in C
     order (first axis slowest) everywhere -- np.unravel_index, itertools.product, ravel() of coefficient arrays -- so a
@@ -1049,12 +1166,13 @@ def run(ctx, rule):
         for det in (g1_stale_after_miss, g2_underkeyed, g2b_projection_key, g4_rebound_parameter_forwarded, g6_error_by_difference_of_squares,
                     g8_meshgrid_indexing, g9_optional_number_tested_by_truth, g11_linear_level_factor, g12_triangular_sum_of_asymmetric_summand,
                     g13_negated_degree_slice, g14_derived_value_cached_before_source_changes, g2c_early_return_memo, g17_late_binding_closure,
-                    g18_mutated_while_iterated, g19_stale_after_handler, g20_same_argument_twice, g21_wraparound_at_first_iteration):
+                    g18_mutated_while_iterated, g19_stale_after_handler, g20_same_argument_twice, g21_wraparound_at_first_iteration,
+                    g2d_order_destroying_key, g22_sum_as_zero_test, g23_setdefault_as_store):
             for kind, node, msg in det(f.node):
                 what = {'G4': 'option forwarding', 'G6': 'error estimate', 'G8': 'index order', 'G9': 'optional argument', 'G11': 'dyadic scaling',
                         'G12': 'symmetric summation', 'G13': 'degree-0 slice', 'G14': 'stale derived value', 'G17': 'late-binding closure',
                         'G18': 'list changed while iterated', 'G19': 'stale value after a caught exception', 'G20': 'operand combined with itself',
-                        'G21': 'negative index at the first iteration'}.get(kind, 'memo discipline')
+                        'G21': 'negative index at the first iteration', 'G22': 'sum used as an all-zero test', 'G23': 'setdefault used as a store'}.get(kind, 'memo discipline')
                 ctx.violated(rule, f.qual, '%s %s: %s' % (kind, what, src(node)[:80]), node, msg)
     for cq in sorted(classes):
         c = ctx.prog.classes.get(cq)
